@@ -72,7 +72,21 @@ theorem C15_refines_partial {cwd dst : Str} {priv : Bool} {fs : FS} {es : List E
     (hwf : WellFormedArchive es) (hx : UrXFlat es) (hsh : UrShallow dst es) (hu : untar es = some t) :
     (unpack cwd [] priv dst .none fs es).2 = .ok ∧
     ∀ r, r ≠ [] → ((unpack cwd [] priv dst .none fs es).1).get (pathSegs dst ++ r) = treeGet t r :=
-  ur_unpack_refines hdst hreal hempty (ur_entryOK_of_wf hwf hx hsh) hu
+  have h := ur_unpack_refines (cwd := cwd) (priv := priv) hdst hreal hempty (ur_entryOK_of_wf hwf hx hsh) hu
+  ⟨h.1, h.2.1⟩
+
+/-- **C15_refines_root_partial.** The destination directory itself: when the archive has a directory
+entry for it (a name such as `.`, `./` or `/`), its final mode and time are those of the last such
+entry, as the tree says under the empty path.  (Without such an entry the directory keeps its mode
+and gets the time of the run iff something was created directly in it; the tree does not model
+that.) -/
+theorem C15_refines_root_partial {cwd dst : Str} {priv : Bool} {fs : FS} {es : List Entry} {t : Tree}
+    (hdst : DstOK dst) (hreal : RealDir fs (pathSegs dst))
+    (hempty : ∀ q, pathSegs dst <+: q → q ≠ pathSegs dst → fs.get q = none)
+    (hwf : WellFormedArchive es) (hx : UrXFlat es) (hsh : UrShallow dst es) (hu : untar es = some t)
+    (hroot : ∃ e ∈ es, e.name ≠ [] ∧ entryRel e.name = [] ∧ e.isDir = true) :
+    ((unpack cwd [] priv dst .none fs es).1).get (pathSegs dst) = treeGet t [] :=
+  (ur_unpack_refines (cwd := cwd) (priv := priv) hdst hreal hempty (ur_entryOK_of_wf hwf hx hsh) hu).2.2 hroot
 
 /-- the destination stays a real directory (every component of `dst` is still a directory) -/
 theorem C15_refines_dst_stays_dir {cwd dst : Str} {priv : Bool} {fs : FS} {es : List Entry}
@@ -145,5 +159,270 @@ theorem C15_refines_unsupported_entry (es : List Entry) (hu : untar es = none) :
   unfold untar at hu
   rw [hst'] at hu
   cases hu
+
+/-! ## the depth limit is a property of the filesystem model -/
+
+/-- **C15_depth_limit.** In the filesystem model a directory whose path has at least `resolveFuel`
+(= 64) components cannot be `stat`ed: resolution spends one unit of fuel per component and answers
+`ELOOP`.  So the deferred `Chmod` of a directory entry at that depth fails with an I/O error although
+`untar` describes a tree — the reason for `UrShallow` (e.g. `dst = /t/dst` and a directory entry
+`a/a/…/a` with 62 components: `Unpack` returns the I/O error, checked by evaluation). -/
+theorem C15_depth_limit (fs : FS) (P : PPath) (hN : ∀ x ∈ P, NameNS x) (hlen : resolveFuel ≤ P.length)
+    (hdirs : ∀ a, a <+: P → IsDir (fs.lookup a)) (mode : Nat) :
+    fs.chmod (ofSegs P) mode = .error .eloop := by
+  unfold FS.chmod FS.stat FS.resolvePath
+  rw [pathSegs_ofSegs P hN,
+    ur_resolve_eloop fs resolveFuel [] P true (ur_names_no_dotdot hN) hlen
+      (by intro a _ _ h; rw [List.nil_append] at h; exact hdirs a h)]
+
+/-! ## a decidable sufficient check for `WellFormedArchive` -/
+
+def urDirOrNoneB : Option Node → Bool
+  | none => true
+  | some (.dir _ _) => true
+  | _ => false
+
+/-- the conflict clause of `WellFormedArchive` for one entry read in the tree `t` -/
+def urConflictB (t : Tree) (e : Entry) : Bool :=
+  (properPrefixes (entryRel e.name)).all (fun q => urDirOrNoneB (treeGet t q)) &&
+  (match treeGet t (entryRel e.name) with
+   | none => true
+   | some (.dir _ _) => e.isDir
+   | some (.file _ _ _) => e.isRegular
+   | some _ => false)
+
+def urWfGo : UntarState → List Entry → Bool
+  | _, [] => true
+  | st, e :: rest =>
+    (decide (e.name = []) || !(e.isDir || e.isSymlink || e.isRegular) || urConflictB st.tree e) &&
+    (match untarEntry st e with
+     | none => true
+     | some st' => urWfGo st' rest)
+
+/-- the link clause: non-empty, relative, all `..` first, fewer `..` than the name has components -/
+def urLinkB (e : Entry) : Bool :=
+  decide (e.link ≠ []) && !isAbs e.link &&
+  ((pathSegs e.link).dropWhile (fun s => decide (s = dotdot))).all (fun s => decide (s ≠ dotdot)) &&
+  decide (((pathSegs e.link).takeWhile (fun s => decide (s = dotdot))).length < (entryRel e.name).length)
+
+def wfCheck (es : List Entry) : Bool :=
+  es.all (fun e => decide (e.name = []) || decide (dotdot ∉ splitOn '/' e.name)) &&
+  es.all (fun e => !e.isSymlink || decide (e.name = []) || urLinkB e) &&
+  urWfGo { tree := [([], .dir 0o755 nowT)], deferred := [] } es
+
+theorem ur_takeWhile_replicate (a : Seg) (l : List Seg) :
+    l.takeWhile (fun s => decide (s = a)) =
+      List.replicate (l.takeWhile (fun s => decide (s = a))).length a := by
+  induction l with
+  | nil => rfl
+  | cons x l ih =>
+    by_cases hx : x = a
+    · rw [List.takeWhile_cons_of_pos (by simp [hx])]
+      simp only [List.length_cons, List.replicate_succ]
+      rw [← ih, hx]
+    · rw [List.takeWhile_cons_of_neg (by simp [hx])]
+      rfl
+
+theorem urWfGo_sound : ∀ (es : List Entry) (st : UntarState), urWfGo st es = true →
+    ∀ pre e post st1, es = pre ++ e :: post → pre.foldlM untarEntry st = some st1 → e.name ≠ [] →
+      (e.isDir || e.isSymlink || e.isRegular) = true → urConflictB st1.tree e = true := by
+  intro es
+  induction es with
+  | nil => intro st _ pre e post st1 h; cases pre <;> cases h
+  | cons x rest ih =>
+    intro st hgo pre e post st1 hsplit hpre hn hk
+    rw [urWfGo, Bool.and_eq_true] at hgo
+    obtain ⟨hhead, htail⟩ := hgo
+    cases pre with
+    | nil =>
+      simp only [List.nil_append, List.cons.injEq] at hsplit
+      obtain ⟨rfl, _⟩ := hsplit
+      have : some st = some st1 := hpre
+      cases this
+      simp only [Bool.or_eq_true, decide_eq_true_eq, Bool.not_eq_true'] at hhead
+      rcases hhead with (h | h) | h
+      · exact absurd h hn
+      · rw [hk] at h; cases h
+      · exact h
+    | cons y pre' =>
+      simp only [List.cons_append, List.cons.injEq] at hsplit
+      obtain ⟨rfl, hrest⟩ := hsplit
+      rw [List.foldlM_cons] at hpre
+      cases hu : untarEntry st x with
+      | none => rw [hu] at hpre; cases hpre
+      | some st' =>
+        rw [hu] at hpre htail
+        exact ih st' htail pre' e post st1 hrest hpre hn hk
+
+theorem wfCheck_sound {es : List Entry} (h : wfCheck es = true) : WellFormedArchive es := by
+  unfold wfCheck at h
+  simp only [Bool.and_eq_true] at h
+  obtain ⟨⟨hnames, hlinks⟩, hgo⟩ := h
+  rw [List.all_eq_true] at hnames hlinks
+  refine ⟨?_, ?_, ?_⟩
+  · intro e he hn
+    have := hnames e he
+    simp only [Bool.or_eq_true, decide_eq_true_eq] at this
+    rcases this with h | h
+    · exact absurd h hn
+    · exact h
+  · intro pre e post st hsplit hpre hn hk
+    have hc := urWfGo_sound es _ hgo pre e post st hsplit hpre hn hk
+    unfold urConflictB at hc
+    rw [Bool.and_eq_true, List.all_eq_true] at hc
+    obtain ⟨hc1, hc2⟩ := hc
+    refine ⟨?_, ?_⟩
+    · intro q hq n hg
+      have := hc1 q hq
+      rw [hg] at this
+      cases n with
+      | dir a b => exact ⟨a, b, rfl⟩
+      | file a b c => simp [urDirOrNoneB] at this
+      | link t => simp [urDirOrNoneB] at this
+      | special => simp [urDirOrNoneB] at this
+    · split
+      · trivial
+      · rename_i a b heq; rw [heq] at hc2; exact hc2
+      · rename_i a b c heq; rw [heq] at hc2; exact hc2
+      · rename_i x hdir hfile heq
+        rw [heq] at hc2
+        cases x with
+        | dir a b => exact hdir a b rfl
+        | file a b c => exact hfile a b c rfl
+        | link t => simp at hc2
+        | special => simp at hc2
+  · intro e he hs hn
+    have := hlinks e he
+    simp only [Bool.or_eq_true, decide_eq_true_eq, Bool.not_eq_true'] at this
+    rcases this with (h | h) | h
+    · rw [hs] at h; cases h
+    · exact absurd h hn
+    · unfold urLinkB at h
+      simp only [Bool.and_eq_true, decide_eq_true_eq, Bool.not_eq_true', List.all_eq_true] at h
+      obtain ⟨⟨⟨h1, h2⟩, h3⟩, h4⟩ := h
+      refine ⟨h1, h2, _, _, ?_, h3, h4⟩
+      rw [← ur_takeWhile_replicate, List.takeWhile_append_dropWhile]
+
+/-- "nothing is bound strictly below `dstP`", checked on the bindings -/
+theorem ur_empty_of_check {fs : FS} {dstP : PPath} (h : ∀ b ∈ fs, dstP <+: b.1 → b.1 = dstP) :
+    ∀ q, dstP <+: q → q ≠ dstP → fs.get q = none := by
+  intro q hq hne
+  cases hg : fs.get q with
+  | none => rfl
+  | some n => exact absurd (h (q, n) (get_mem hg) hq) hne
+
+/-! ## counterexamples: why `UrXFlat` is needed -/
+
+def c15rPax (name : String) : Entry := ⟨name.toList, tXHeader, 0o644, 0, [], []⟩
+
+/-- **C15_cex_typex_creates_parent.** A pax header entry named `a/b` is a well-formed archive and the
+sequential reading ignores it, but `Unpack` (successfully) creates the directory `a`: `MkdirAll` on
+the directory of the extraction path runs before the type dispatch. -/
+theorem C15_cex_typex_creates_parent :
+    WellFormedArchive [c15rPax "a/b"] ∧ UrShallow cexDst [c15rPax "a/b"] ∧
+    untar [c15rPax "a/b"] = some [([], .dir 0o755 nowT)] ∧
+    unpack cexCwd [] true cexDst .none cexFs0 [c15rPax "a/b"] =
+      ([(cexDstP ++ ["a".toList], .dir 0o755 nowT), (cexDstP, .dir 0o755 nowT),
+        (cexDstP, .dir 0o755 0), (cexTP, .dir 0o755 0)], .ok) ∧
+    treeGet [([], .dir 0o755 nowT)] ["a".toList] = none :=
+  ⟨wfCheck_sound (by decide), by decide, by decide, by decide, by decide⟩
+
+/-- **C15_cex_typex_illegal.** A pax header entry whose name passes through a file: the archive is
+well-formed and the sequential reading ignores the entry, but `Unpack` refuses the archive (the
+`Lstat` walk of `NewUnpackInfo` runs for every entry type). -/
+theorem C15_cex_typex_illegal :
+    WellFormedArchive [cexReg "f" "x" 0o644 1, c15rPax "f/g/h"] ∧
+    UrShallow cexDst [cexReg "f" "x" 0o644 1, c15rPax "f/g/h"] ∧
+    untar [cexReg "f" "x" 0o644 1, c15rPax "f/g/h"] =
+      some [(["f".toList], .file 0o644 1 "x".toList), ([], .dir 0o755 nowT)] ∧
+    (unpack cexCwd [] true cexDst .none cexFs0 [cexReg "f" "x" 0o644 1, c15rPax "f/g/h"]).2 = .illegal :=
+  ⟨wfCheck_sound (by decide), by decide, by decide, by decide⟩
+
+/-! ## non-vacuity: a concrete well-formed archive -/
+
+/-- child before its parents (and read-only), the parent directory afterwards, the same file again
+(overwrite of a read-only file), a link with a `..`, a leading `/`, a leading `./` with a trailing
+`/`, a pax header, and an entry for the destination itself -/
+def c15rEs : List Entry :=
+  [ cexReg "d/sub/f" "one" 0o444 3,
+    cexDir "d" 0o750 9,
+    cexReg "d/sub/f" "two" 0o640 4,
+    cexLink "d/l" "../d/sub/f",
+    cexReg "/top" "t" 0o600 5,
+    cexDir "./d/sub/" 0o700 8,
+    c15rPax "pax_global_header",
+    cexDir "." 0o711 6 ]
+
+def c15rP (l : List String) : RelPath := l.map String.toList
+
+/-- what the sequential reading makes of it (newest binding first) -/
+def c15rTree : Tree :=
+  [ (c15rP [], .dir 0o711 6),
+    (c15rP ["d","sub"], .dir 0o700 8),
+    (c15rP ["d"], .dir 0o750 9),
+    (c15rP ["top"], .file 0o600 5 "t".toList),
+    (c15rP ["d","l"], .link "../d/sub/f".toList),
+    (c15rP ["d"], .dir 0o755 nowT),
+    (c15rP ["d","sub","f"], .file 0o640 4 "two".toList),
+    (c15rP ["d","sub","f"], .file 0o444 3 "one".toList),
+    (c15rP ["d","sub"], .dir 0o755 nowT),
+    (c15rP ["d","sub"], .dir 0o755 nowT),
+    (c15rP ["d"], .dir 0o755 nowT),
+    (c15rP [], .dir 0o755 nowT) ]
+
+theorem c15r_wf : WellFormedArchive c15rEs := wfCheck_sound (by decide)
+
+theorem c15r_untar : untar c15rEs = some c15rTree := by decide
+
+theorem c15r_hyps : DstOK cexDst ∧ RealDir cexFs0 (pathSegs cexDst) ∧
+    (∀ q, pathSegs cexDst <+: q → q ≠ pathSegs cexDst → cexFs0.get q = none) ∧
+    UrXFlat c15rEs ∧ UrShallow cexDst c15rEs := by
+  refine ⟨cex_hyps.1, ?_, ?_, by decide, by decide⟩
+  · rw [cex_dstP]; exact (fsCheck_sound cex_hyps.2.1).1
+  · rw [cex_dstP]; exact ur_empty_of_check (by decide)
+
+/-- the theorem instantiated, unprivileged (the second `d/sub/f` goes through `EACCES`,
+`Chmod 0600` and the retry) and privileged -/
+theorem c15r_instance (priv : Bool) :
+    (unpack cexCwd [] priv cexDst .none cexFs0 c15rEs).2 = .ok ∧
+    ∀ r, r ≠ [] →
+      ((unpack cexCwd [] priv cexDst .none cexFs0 c15rEs).1).get (cexDstP ++ r) = treeGet c15rTree r := by
+  have h := C15_refines_partial (cwd := cexCwd) (priv := priv) c15r_hyps.1 c15r_hyps.2.1 c15r_hyps.2.2.1
+    c15r_wf c15r_hyps.2.2.2.1 c15r_hyps.2.2.2.2 c15r_untar
+  rw [cex_dstP] at h
+  exact h
+
+/-- the destination itself: the archive has an entry `.` with mode 0711 and time 6 -/
+theorem c15r_instance_root (priv : Bool) :
+    ((unpack cexCwd [] priv cexDst .none cexFs0 c15rEs).1).get cexDstP = some (.dir 0o711 6) := by
+  have h := C15_refines_root_partial (cwd := cexCwd) (priv := priv) c15r_hyps.1 c15r_hyps.2.1 c15r_hyps.2.2.1
+    c15r_wf c15r_hyps.2.2.2.1 c15r_hyps.2.2.2.2 c15r_untar ⟨cexDir "." 0o711 6, by decide, by decide, by decide, rfl⟩
+  rw [cex_dstP] at h
+  exact h
+
+/-- what the tree says about the interesting paths -/
+example : treeGet c15rTree (c15rP ["d","sub","f"]) = some (.file 0o640 4 "two".toList) := by decide
+example : treeGet c15rTree (c15rP ["d"]) = some (.dir 0o750 9) := by decide
+example : treeGet c15rTree (c15rP ["d","sub"]) = some (.dir 0o700 8) := by decide
+example : treeGet c15rTree (c15rP ["d","l"]) = some (.link "../d/sub/f".toList) := by decide
+example : treeGet c15rTree (c15rP ["top"]) = some (.file 0o600 5 "t".toList) := by decide
+example : treeGet c15rTree (c15rP ["pax_global_header"]) = none := by decide
+
+/-- and, independently of the theorem, the model run itself on two of them (unprivileged) -/
+example : ((unpack cexCwd [] false cexDst .none cexFs0 c15rEs).1).get (cexDstP ++ c15rP ["d","sub","f"]) =
+    some (.file 0o640 4 "two".toList) := by decide
+example : (unpack cexCwd [] false cexDst .none cexFs0 c15rEs).2 = .ok := by decide
+
+/-- the error clause is not vacuous: a hard link makes both sides fail -/
+example : untar (c15rEs ++ [c15hard]) = none := by decide
+example : (unpack cexCwd [] false cexDst .none cexFs0 (c15rEs ++ [c15hard])).2 = .illegal := by decide
+
+/-- `wfCheck` rejects what it should: a path used as file and as directory, an entry below a link,
+a link twice, a target that leaves the destination -/
+example : wfCheck [cexReg "a" "x" 0o644 1, cexReg "a/b" "y" 0o644 1] = false := by decide
+example : wfCheck [cexLink "l" "x", cexReg "l/b" "y" 0o644 1] = false := by decide
+example : wfCheck [cexLink "l" "x", cexLink "l" "x"] = false := by decide
+example : wfCheck [cexLink "l" "../x"] = false := by decide
+example : wfCheck [cexReg "a/../b" "y" 0o644 1] = false := by decide
 
 end Slug
